@@ -415,7 +415,10 @@ def suite_recv(tier):
     reqs = recv_requests(r, tier)
     cases = []
     for fname in FRAMINGS:
-        silent_unit_on_another_client(fname)
+        for q, label, addr, fill in reqs:
+            if label == "exception" or not cases:
+                silent_unit_on_another_client(fname)       # (before every exception-reply case: see its docstring)
+            cases.append(recv_case(fname, q, ctx, label, addr, fill))
         # ONE client object through a history: its unit stays silent once, answers the next request normally (which
         # takes it off the list of silent units again), and then replies — normally or with an exception — to the
         # request of the case: that reply must be read like any first reply (function-code probe, then the rest)
@@ -430,8 +433,6 @@ def suite_recv(tier):
                 pass
             run_transaction(fname, ("QReadHolding", 2), ctx, 0, 0, cli=cli)      # answered normally
             cases.append(recv_case(fname, q, ctx, "after-silent-then-answered:" + label, addr, fill, cli=cli))
-        for q, label, addr, fill in reqs:
-            cases.append(recv_case(fname, q, ctx, label, addr, fill))
     return Suite("recv", IMPORTS, "chk_recv", cases, shard=300)
 
 
